@@ -1,0 +1,66 @@
+//! Read-only verification hooks, compiled only with the `verif` cargo feature.
+//!
+//! Nothing in here influences muxing results: the functions either render the
+//! logical state of a muxer as a canonical string (`verif_snapshot` methods on
+//! the muxer types call into this module) or append an event to a thread-local
+//! buffer that an external monitor drains between calls.
+
+use std::cell::RefCell;
+
+/// One narrowing conversion that was about to be performed.
+#[derive(Debug, Clone, PartialEq, Eq)]
+pub struct CastEvent {
+    /// Stable label of the conversion site.
+    pub site: &'static str,
+    /// Mathematical value that is being stored.
+    pub value: i128,
+    /// Width of the destination field in bits.
+    pub bits: u32,
+    /// Whether the destination field is signed.
+    pub signed: bool,
+    /// Whether `value` is representable in the destination field.
+    pub fits: bool,
+}
+
+thread_local! {
+    static CASTS: RefCell<Vec<CastEvent>> = const { RefCell::new(Vec::new()) };
+}
+
+/// Record a narrowing conversion of `value` into a `bits`-wide field.
+pub fn cast(site: &'static str, value: i128, bits: u32, signed: bool) {
+    let fits = if signed {
+        let lo = -(1i128 << (bits - 1));
+        let hi = (1i128 << (bits - 1)) - 1;
+        value >= lo && value <= hi
+    } else {
+        value >= 0 && value < (1i128 << bits)
+    };
+    CASTS.with(|c| {
+        let mut c = c.borrow_mut();
+        // Bounded: only lossy events are kept once the buffer is large.
+        if !fits || c.len() < 4096 {
+            c.push(CastEvent {
+                site,
+                value,
+                bits,
+                signed,
+                fits,
+            });
+        }
+    });
+}
+
+/// Remove and return all events recorded on this thread since the last drain.
+pub fn drain_casts() -> Vec<CastEvent> {
+    CASTS.with(|c| std::mem::take(&mut *c.borrow_mut()))
+}
+
+/// 64-bit FNV-1a, used to fingerprint payloads in snapshots.
+pub fn fnv(data: &[u8]) -> u64 {
+    let mut h: u64 = 0xcbf2_9ce4_8422_2325;
+    for &b in data {
+        h ^= b as u64;
+        h = h.wrapping_mul(0x0000_0100_0000_01b3);
+    }
+    h
+}
